@@ -304,6 +304,8 @@ def pyeq(ex, st, a, b):
     if ta == tb == "none":
         return z3.BoolVal(True)
     if ta == tb == "float":
+        if ex.total:
+            return a.t == b.t      # specifications compare floats by bit pattern (NaN == NaN)
         return eng.fop_bool("feq", a.t, b.t)
     if ta in scalars and tb in scalars:
         if "float" in (ta, tb):
@@ -324,6 +326,10 @@ def pyeq(ex, st, a, b):
         return z3.BoolVal(False)
     if ta in ("list", "tuple", "set", "dict") and tb in ("list", "tuple", "set", "dict") and ta != tb:
         return z3.BoolVal(False)
+    if ex.total:
+        # in specifications and contract clauses == is structural equality of values
+        # (insertion-ordered dicts, floats by bit pattern): stronger than Python's ==
+        return pa == pb
     r = eng.pyeq_fn(pa, pb)
     st.assume(z3.Implies(pa == pb, r))
     st.assume(z3.Implies(z3.And(r, z3.Or(Py.is_str(pa), Py.is_none(pa), Py.is_bytes(pa))), pa == pb))
